@@ -26,7 +26,8 @@ func (v *Vue) evalAttributes(ctx VueContext, n *html.Node) (map[string]any, erro
 	// First pass: collect static attributes and evaluate bound ones
 	for _, a := range n.Attr {
 		key := a.Key
-		val := strings.TrimSpace(a.Val)
+		// (HTML whitespace only: a non-breaking space at the edge of a value is content)
+		val := strings.Trim(a.Val, " \t\n\r\f")
 
 		// Internal content attributes hold evaluated v-html/v-text output, not template source.
 		if key == "data-v-html-content" || key == "data-v-text-content" {
